@@ -23,7 +23,8 @@ Abs(j) ==
    tbs |-> ToSet(j.tbs),
    cache |-> {[topic |-> e.topic, subj |-> e.subj, pend |-> e.pend] : e \in ToSet(j.cache)},
    cl |-> [c \in DOMAIN j.cl |-> AbsCl(j.cl[c])],
-   ttl |-> j.ttl, ridx |-> j.ridx, wild |-> ToSet(j.wild), idx |-> j.idx, qlen |-> j.qlen]
+   ttl |-> j.ttl, ridx |-> j.ridx, wild |-> ToSet(j.wild), idx |-> j.idx, qlen |-> j.qlen,
+   deny |-> [t \in DOMAIN j.deny |-> ToSet(j.deny[t])]]
 
 Pre(i) == IF "pre" \in DOMAIN Trace[i] THEN Abs(Trace[i].pre) ELSE Abs(Trace[i - 1].post)
 
@@ -35,7 +36,7 @@ StEq(a, b) == a.queue = b.queue /\ a.tbs = b.tbs /\ a.cache = b.cache /\ a.cl = 
 \* A snapshot is compared as the SET of its events in front of end-of-snapshot (the order and the
 \* grouping into items is the snapshot handler's business, the specification is silent about it);
 \* everything from end-of-snapshot on is compared item by item.
-CoreEv(e) == [op |-> e.op, id |-> e.id, v |-> e.v]
+CoreEv(e) == [op |-> e.op, id |-> e.id, v |-> e.v, ak |-> e.ak]
 CoreItem(it) == [k |-> it.k, idx |-> it.idx, evs |-> [i \in DOMAIN it.evs |-> CoreEv(it.evs[i])]]
 EosPos(p) == IF \E i \in DOMAIN p : p[i].k = "eos" THEN CHOOSE i \in DOMAIN p : p[i].k = "eos" /\ \A j \in 1..(i - 1) : p[j].k # "eos" ELSE 0
 NormPend(p) ==
@@ -55,7 +56,8 @@ ResEq(a, b) ==
 RowsOf(q) == ToSet(q.rows)
 \* the recorded direct query results "at the delivered index" (harness DirectAt): the state after the
 \* last write with a raft index <= vidx, and every state whose direct query reported index vidx
-Cands(d) == {RowsOf(c) : c \in ToSet(d.cands)}
+\* ... each restricted to what the subscriber's token may read
+Cands(s, tok, d) == {ReadableRows(s, tok, RowsOf(c)) : c \in ToSet(d.cands)}
 
 Verdict(i) ==
   LET e    == Trace[i]
@@ -85,15 +87,15 @@ Verdict(i) ==
                          /\ exp.queue = post.queue /\ exp.tbs = post.tbs /\ CacheN(exp.cache) = CacheN(post.cache)
                          /\ \A d \in DOMAIN post.cl : IF d = c.c THEN ClEqN(exp.cl[d], y) ELSE exp.cl[d] = post.cl[d])
             \* a subscriber whose request to resume was granted keeps its view: it must be the state at its index
-            \cup F("ViewExact", e.res.ok => ViewExact(y, Cands(e.res.direct)))
+            \cup F("ViewExact", e.res.ok => ViewExact(y, Cands(post, y.tok, e.res.direct)))
     [] c.t = "next" ->
          LET x == pre.cl[c.c]
              y == post.cl[c.c]
              delivered == e.res.k = "data"
          IN F("Conform", \E g \in Variants : LET r == NextOp(pre, c.c, g) IN ResEq(r.res, e.res) /\ StEq(r.st, post))
-            \cup F("ViewExact", delivered => ViewExact(y, Cands(e.res.direct)))
+            \cup F("ViewExact", delivered => ViewExact(y, Cands(post, y.tok, e.res.direct)))
             \cup F("IdxMonotone", delivered => IdxMonotone(x, y))
-            \cup F("NoSkip", NoSkip(post, y, RowsOf(e.res.cur)))
+            \cup F("NoSkip", NoSkip(post, y, ReadableRows(post, y.tok, RowsOf(e.res.cur))))
             \cup F("ClosedNeverData", ClosedNeverData(x, e.res))
     [] c.t = "unsub" -> F("Conform", StEq(UnsubOp(pre, c.c), post))
     [] c.t = "expire" -> F("Conform", StEq(ExpireOp(pre, c.topic, c.skey), post))
